@@ -41,6 +41,7 @@ type slScen struct {
 	algo    string
 	npeers  int
 	sensor  [6]bool
+	shared  int     // 0: every peer has a node name of its own; 1: the peers' endpoint IDs share one dtn node name (dtn://p/, dtn://p/c2 ...); 2: one ipn node number (ipn:5.1, ipn:5.2 ...)
 	high    [6]bool // prophet: peers believed to be better forwarders
 	failing [6]bool
 	ids     map[string]int
@@ -54,6 +55,17 @@ type slScen struct {
 func (x *slScen) eid(i int) string {
 	if x.sensor[i] {
 		return "dtn://s" + strconv.Itoa(i) + "/"
+	}
+	switch x.shared {
+	case 1:
+		// several convergence layers of ONE node, each announced with an endpoint ID of its own: for
+		// the selection and the sent list they are different peers (compared with ==)
+		if i == 1 {
+			return "dtn://p/"
+		}
+		return "dtn://p/c" + strconv.Itoa(i)
+	case 2:
+		return "ipn:5." + strconv.Itoa(i)
 	}
 	return "dtn://p" + strconv.Itoa(i) + "/"
 }
@@ -102,7 +114,7 @@ func (x *slScen) setPreds() {
 	for i := 1; i <= x.npeers; i++ {
 		if x.high[i] {
 			x.n.Core.VerifProphetSetPeerPred(MustEID(x.eid(i)), MustEID("dtn://dest/x"), 0.9)
-			for d := 1; d <= x.npeers; d++ {
+			for d := 1; d <= x.npeers && x.shared == 0; d++ { // (shared node names: no bundle is addressed to a peer)
 				x.n.Core.VerifProphetSetPeerPred(MustEID(x.eid(i)), MustEID(x.eid(d)+"inbox"), 0.9)
 			}
 		}
@@ -312,7 +324,13 @@ func (x *slScen) do(op slOp) {
 }
 
 func slRunScen(o *Out, name, algo string, npeers int, sensors, high []int, ops []slOp) {
-	x := &slScen{algo: algo, npeers: npeers, ids: map[string]int{}, bids: map[int]bpv7.BundleID{},
+	slRunScenNamed(o, name, algo, 0, npeers, sensors, high, ops)
+}
+
+// slRunScenNamed: shared != 0 gives the peers endpoint IDs that share one node name (see eid); the
+// case body is the same (peers are indices), the naming scheme is part of the scenario name.
+func slRunScenNamed(o *Out, name, algo string, shared int, npeers int, sensors, high []int, ops []slOp) {
+	x := &slScen{algo: algo, shared: shared, npeers: npeers, ids: map[string]int{}, bids: map[int]bpv7.BundleID{},
 		prims: map[int]bpv7.PrimaryBlock{}, ops: map[int]slOp{}}
 	for _, s := range sensors {
 		x.sensor[s] = true
@@ -422,8 +440,8 @@ func genC13sentlist(o *Out, r *Rng, thorough bool) {
 	if thorough {
 		nrand = 500
 	}
-	for _, algo := range slAlgos {
-		for c := 0; c < nrand; c++ {
+	randScen := func(algo string, shared int) {
+		{
 			np := 1 + r.Intn(5)
 			var sens, high []int
 			for i := 1; i <= np; i++ {
@@ -495,7 +513,7 @@ func genC13sentlist(o *Out, r *Rng, thorough bool) {
 					}
 					if algo != "dtlsr" && r.Intn(4) == 0 {
 						d := 1 + r.Intn(np)
-						if d != op.prev {
+						if d != op.prev && shared == 0 { // direct delivery goes by the node name: peers sharing one are never destinations
 							op.dest = d
 						}
 					} else if algo != "dtlsr" && r.Intn(12) == 0 {
@@ -544,7 +562,44 @@ func genC13sentlist(o *Out, r *Rng, thorough bool) {
 				}
 			}
 			ops = append(ops, tick, tick)
-			slRunScen(o, fmt.Sprintf("rand-%s", algo), algo, np, sens, high, ops)
+			name := fmt.Sprintf("rand-%s", algo)
+			if shared != 0 {
+				name = fmt.Sprintf("rand-%s-samenode%d", algo, shared)
+			}
+			slRunScenNamed(o, name, algo, shared, np, sens, high, ops)
+		}
+	}
+	for _, algo := range slAlgos {
+		for c := 0; c < nrand; c++ {
+			randScen(algo, 0)
+		}
+	}
+
+	// Peers whose endpoint IDs share the node name and differ in the rest (several convergence layers of one
+	// node announced with their own endpoint IDs: dtn://p/ and dtn://p/c2, ipn:5.1 and ipn:5.2).  The
+	// selection and the sent list compare endpoint IDs, so these are different peers in every role: previous
+	// node, acknowledged, failed.  Fixed scenarios per algorithm and naming scheme, then random histories.
+	for _, algo := range slAlgos {
+		for shared := 1; shared <= 2; shared++ {
+			tag := fmt.Sprintf("-samenode%d", shared)
+			// the transmission to one endpoint fails while another endpoint of that node is acknowledged
+			slRunScenNamed(o, "fail-beside-acked"+tag, algo, shared, 3, nil, slAll(3), []slOp{up(1), up(2), {kind: "failon", p: 2},
+				slNewOp(algo, 1, 0, nil), {kind: "failoff", p: 2}, tick, up(3), tick})
+			// ... while another endpoint of that node is the previous node
+			slRunScenNamed(o, "fail-beside-previous"+tag, algo, shared, 3, nil, slAll(3), []slOp{up(1), up(2), up(3), {kind: "failon", p: 3},
+				slNewOp(algo, 1, 1, nil), {kind: "failoff", p: 3}, tick, tick})
+			// the later endpoint is the previous node, the first one fails; memory across a restart
+			slRunScenNamed(o, "prev-fail-restart"+tag, algo, shared, 3, nil, slAll(3), []slOp{up(1), up(2), {kind: "failon", p: 1},
+				slNewOp(algo, 1, 2, nil), tick, {kind: "restart"}, {kind: "failoff", p: 1}, up(2), up(1), up(3), tick})
+		}
+	}
+	nshared := 6
+	if thorough {
+		nshared = 200
+	}
+	for _, algo := range slAlgos {
+		for c := 0; c < nshared; c++ {
+			randScen(algo, 1+c%2)
 		}
 	}
 }
